@@ -152,6 +152,13 @@ def run(ck):
         why = "return-guard=%s payload=%s arg=%s overflow-edge-returns=%s" % (ok_ret, ok_payload, arg_ok, none_ret is not None)
     ob("5:increment_sub_id:returns-only-checked_add-Some-and-within-mask,-else-panics", ok5, "the non-panicking return is reachable only when checked_add(sub_id, 1) is Some (and within the mask); its payload becomes the new sub_id, id/version unchanged; the overflow edge cannot return", "increment_sub_id can return after the sub-id overflowed / wraps silently (%s)" % why, isi)
 
+    # ---- 6: TokenFactory hands out the current token and advances (shared with C01.7) ----
+    from props import C01
+    n0 = len(ck.results)
+    C01.token_factory_rules(ck, "6")
+    for r in ck.results[n0:]:
+        obligations.append((r["key"], r["verdict"] == "ok"))
+
     # ---- 7: constants -------------------------------------------------------------------------------------------
     bv, bs = f.const_value("token::BITS_VERSION"), f.const_value("token::BITS_SUBID")
     mv, ms = f.const_value("token::MASK_VERSION"), f.const_value("token::MASK_SUBID")
